@@ -7,6 +7,7 @@ silently (the model can no longer follow) and is counted as 'foreign'.
 
 families:  state callback reply sleep wake ota ids crash
 """
+import os
 import time as _time
 
 from vf import drive
@@ -62,10 +63,17 @@ def image_bytes(spec):
 class Session:
     """One real gateway + one model, stepped together."""
 
-    def __init__(self, version, flavour="sync", snapshot_in_callback=True, driver=None):
+    def __init__(self, version, flavour="sync", snapshot_in_callback=True, driver=None, persist=None):
         import mysensors.handler as handler
 
         self.version = version
+        self._scratch = None
+        if driver is None and persist:
+            import tempfile
+
+            self._scratch = tempfile.mkdtemp(prefix="vf_ls_")
+            driver = drive.Driver(version, flavour, snapshot_in_callback=snapshot_in_callback, persistence=True,
+                                  persistence_file=os.path.join(self._scratch, f"net.{persist}"))
         self.driver = driver or drive.Driver(version, flavour, snapshot_in_callback=snapshot_in_callback)
         self.model = M.Gateway(version)
         self.clock = FakeTime()
@@ -79,6 +87,10 @@ class Session:
 
     def close(self):
         self._handler.time = self._saved_time
+        if self._scratch:
+            import shutil
+
+            shutil.rmtree(self._scratch, ignore_errors=True)
 
     # -- step kinds -----------------------------------------------------------
     def apply(self, op):
@@ -90,6 +102,18 @@ class Session:
             return self._set(op)
         if kind == "fw":
             return self._fw(op)
+        if kind == "save":
+            # a periodic save happens now; saving must not change the gateway's behaviour
+            pers = self.driver.gw.tasks.persistence
+            if pers is not None:
+                pers.need_save = True
+                try:
+                    pers.save_sensors()
+                except Exception as exc:  # pylint: disable=broad-except
+                    raise Clause({"crash", "state", "sleep", "wake", "reply"}, f"save_raises.{type(exc).__name__}", f"a periodic save raised {exc!r}") from exc
+                self._check_state("after a periodic save")
+                self.labels.add("save")
+            return None
         if kind == "metric":
             self.driver.gw.metric = bool(op["value"])
             self.model.metric = bool(op["value"])
@@ -275,7 +299,8 @@ class Session:
 
     def _reply_mismatch(self, got, want, exp, sleeping_before, inbound):
         if exp.wake is not None:
-            fams = {"wake"}
+            # the burst carries the withheld REPLIES, so a wrong burst is also a wrong reply (C05)
+            fams = {"wake", "reply"}
         else:
             fams = {"reply"}
             if sleeping_before:
@@ -394,7 +419,7 @@ def run_history(case, families, stats=None, flavour=None):
 
     Returns the Session labels (for non-triviality accounting)."""
     version = case["version"]
-    sess = Session(version, flavour or case.get("flavour", "sync"))
+    sess = Session(version, flavour or case.get("flavour", "sync"), persist=case.get("persist"))
     try:
         for i, op in enumerate(case["ops"]):
             try:
